@@ -52,6 +52,7 @@ type C02Case struct {
 	Calls  [][]C02Call       `json:"calls"` // per goroutine
 	Reps   int               `json:"reps"`
 	Churn  bool              `json:"churn,omitempty"` // the harness removes/recreates churn/* while the workload runs
+	Chain  bool              `json:"chain,omitempty"` // the loaders are registered as one ChainLoader (an empty directory first)
 }
 
 func c02World(t *rapid.T) (map[string]string, map[string]string, []string) {
@@ -87,8 +88,16 @@ func c02World(t *rapid.T) (map[string]string, map[string]string, []string) {
 
 func c02Engine(c C02Case, root string) *twig.Engine {
 	e := twig.New()
-	e.RegisterLoader(twig.NewFileSystemLoader([]string{root}))
-	e.RegisterLoader(twig.NewArrayLoader(copyMap(c.Mem)))
+	if c.Chain {
+		// one ChainLoader over an (empty) override directory, the template directory and the
+		// in-memory templates
+		os.MkdirAll(filepath.Join(root, "_override"), 0o755)
+		e.RegisterLoader(twig.NewChainLoader([]twig.Loader{twig.NewFileSystemLoader([]string{filepath.Join(root, "_override")}),
+			twig.NewFileSystemLoader([]string{root}), twig.NewArrayLoader(copyMap(c.Mem))}))
+	} else {
+		e.RegisterLoader(twig.NewFileSystemLoader([]string{root}))
+		e.RegisterLoader(twig.NewArrayLoader(copyMap(c.Mem)))
+	}
 	switch c.Mode {
 	case "nocache":
 		e.SetCache(false)
@@ -320,7 +329,7 @@ func runC02(c C02Case) (int, error) {
 func genC02(t *rapid.T) C02Case {
 	fs, mem, names := c02World(t)
 	c := C02Case{FS: fs, Mem: mem, Mode: rapid.SampledFrom([]string{"cache", "cache", "nocache", "autoreload"}).Draw(t, "mode"),
-		Procs: rapid.SampledFrom([]int{0, 2, 4, 16}).Draw(t, "procs"), Yields: rapid.Bool().Draw(t, "yields"), Reps: scale(3, 10), Churn: rapid.Bool().Draw(t, "churn")}
+		Procs: rapid.SampledFrom([]int{0, 2, 4, 16}).Draw(t, "procs"), Yields: rapid.Bool().Draw(t, "yields"), Reps: scale(3, 10), Churn: rapid.Bool().Draw(t, "churn"), Chain: rapid.IntRange(0, 2).Draw(t, "chain") == 0}
 	g := rapid.SampledFrom([]int{2, 4, 8, 16}).Draw(t, "goroutines")
 	for gi := 0; gi < g; gi++ {
 		n := rapid.IntRange(3, scale(12, 40)).Draw(t, "ncalls")
@@ -356,7 +365,7 @@ func genC02(t *rapid.T) C02Case {
 	return c
 }
 
-const c02Rule = "workloads on one shared engine with a temp-dir FileSystemLoader (2-3 directories whose templates extend ../shared/base and include/import ./part, ./macros, ./leaf — the same relative names resolving to different files per directory) and an ArrayLoader (inheritance with parent(), include-with, macros, a template above 4096 bytes, escaping of strings full of special characters, attribute and method lookups on a Go struct passed by value and by pointer); parsed and registered sources (below and above 4096 bytes) print identifiers the process has never seen; cache on / off / auto-reload; 2-16 goroutines with 3-12 (thorough 40) calls each out of Render, RenderTo (into a bytes.Buffer, a slow Write-only writer, an io.Pipe), Load+Render, ParseTemplate+Render, RegisterString+Render of goroutine-private names; GOMAXPROCS 2/4/16/default and optional yields; each workload repeated 3 (thorough 10) times on fresh engines, so first loads are concurrent and uncached; built with -race. non-trivial = at least two calls overlapped in time on the shared engine (measured); distinct by workload"
+const c02Rule = "workloads on one shared engine with a temp-dir FileSystemLoader (2-3 directories whose templates extend ../shared/base and include/import ./part, ./macros, ./leaf — the same relative names resolving to different files per directory) and an ArrayLoader (registered one by one, or together as one ChainLoader behind an empty override directory; inheritance with parent(), include-with, macros, a template above 4096 bytes, escaping of strings full of special characters, attribute and method lookups on a Go struct passed by value and by pointer); parsed and registered sources (below and above 4096 bytes) print identifiers the process has never seen; cache on / off / auto-reload; 2-16 goroutines with 3-12 (thorough 40) calls each out of Render, RenderTo (into a bytes.Buffer, a slow Write-only writer, an io.Pipe), Load+Render, ParseTemplate+Render, RegisterString+Render of goroutine-private names; GOMAXPROCS 2/4/16/default and optional yields; each workload repeated 3 (thorough 10) times on fresh engines, so first loads are concurrent and uncached; built with -race. non-trivial = at least two calls overlapped in time on the shared engine (measured); distinct by workload"
 
 func TestC02Concurrent(t *testing.T) {
 	r := NewRec(t, "C02", c02Rule)
